@@ -135,6 +135,55 @@ def unit(job, variant, pi, seed, quick, plan_len):
     return out
 
 
+JOB_POINT = "JobRunner (end-to-end) vs real engine"
+
+
+def job_unit(job, ji, pi, seed, quick):
+    """one plan for the END-TO-END job model (lean/Simaple/Model/JobRunner.lean): the real run in canonical form and
+    the driver request (environment variant 0: no cooldown reduction, so times stay on the 2^-10 ms grid)"""
+    import random
+    import jobmodel
+    rng = random.Random(f"C01:job:{seed}:{job}:{pi}")
+    kind = "rotation" if (ji + pi) % 2 == 1 else "random"
+    size = (3 if quick else 6) if kind == "rotation" else (30 if quick else 60)
+    try:
+        cmds = jobmodel.make_plan(rng, job, 0, kind, size)
+        u = jobmodel.prepare(job, 0, cmds)
+        u["kind"] = kind
+        return u
+    except Exception as e:      # noqa: BLE001 -- reported as a broken correspondence, never a crash of the check
+        import traceback
+        return {"job": job, "error": f"{type(e).__name__}: {e}", "trace": traceback.format_exc()[-800:]}
+
+
+def end_to_end(ck: Check, quick: bool) -> dict:
+    """each of the 8 jobs: 1 plan (quick) / 4 plans (thorough) run by the Lean job model and by the real engine,
+    compared play by play (action, clock, events, full store); every failure mode is a broken correspondence"""
+    import jobmodel
+    plans_per = 1 if quick else 4
+    work = [(job, ji, pi, ck.seed, quick) for ji, job in enumerate(JOBS) for pi in range(plans_per)]
+    units = []
+    try:
+        for args, out in pmap(job_unit, work, max(20.0, min(ck.time_left() * 0.5, 300.0))):
+            if args is None:
+                ck.broken.append({"kind": "correspondence", "point": JOB_POINT, "error": f"budget reached: {out}"})
+                continue
+            if "error" in out:
+                ck.broken.append({"kind": "correspondence", "point": JOB_POINT, **out})
+                continue
+            units.append(out)
+        stats = jobmodel.compare(ck, units, JOB_POINT, timeout=120 if quick else 800)
+    except Exception as e:      # noqa: BLE001
+        import traceback
+        ck.broken.append({"kind": "correspondence", "point": JOB_POINT, "error": f"{type(e).__name__}: {e}",
+                          "trace": traceback.format_exc()[-800:]})
+        return {"error": str(e)}
+    if stats["compared"] < len(JOBS) and not any(b.get("point") == JOB_POINT for b in ck.broken):
+        ck.broken.append({"kind": "correspondence", "point": JOB_POINT,
+                          "error": f"only {stats['compared']} of {len(work)} plans could be compared", "stats": stats})
+    return stats
+
+
 def main(ck: Check):
     quick = ck.tier == "quick"
     variants = [0, 1] if quick else [0, 1, 2]
@@ -175,6 +224,7 @@ def main(ck: Check):
         if not quick and proved:
             ck.leanchecker(["Simaple.Props.C01"])
         res = ck.driver(model_reqs, timeout=900)
+        job_stats = end_to_end(ck, quick)
     model_disagreements = 0
     if res is not None:
         for r, (job, variant, k, impl_logs, impl_links, plan) in zip(res, model_expect):
@@ -211,16 +261,21 @@ def main(ck: Check):
         "entity_classes_roundtripped": entity_roundtrips,
         "model_engine_replays": len(model_reqs),
         "model_engine_disagreements": model_disagreements,
+        "job_runner_end_to_end": job_stats,
     })
     ck.assumptions += [
         "StoreLaws (everything that influences the future is in the saved store; restore(save(s)) behaves like s): "
         "a hypothesis of the theorems, validated here by the checkpoint round trips and by the resumed runs themselves",
         "JSON round trip of recorded logs is the identity on what a log carries (validated by the json-mode runs)",
         "unknown command words and ELAPSE without a time are outside the model",
+        "end-to-end job model: the job description (params, defaults, binds, mappings) is read off the real built engine; "
+        "debug lines (Python eval) and plans with times off the 2^-10 ms grid are outside the comparison (counted)",
     ]
     ck.finish("proof",
               trusted_base=["Lean 4.33 kernel", "axioms ⊆ {propext, Classical.choice, Quot.sound}",
-                            "hand-written model Simaple/Model/Engine.lean tied to the code by the recorded-play-table replay",
+                            "hand-written model Simaple/Model/Engine.lean tied to the code by the recorded-play-table replay "
+                            "and, instantiated with the modelled router/dispatchers/components (Model/JobRunner.lean), by "
+                            "whole real runs compared play by play",
                             "StoreLaws hypothesis (validated per run)", "pydantic dump/validate, json"],
               checker_cmd="cd lean && lake build Simaple.Props.C01 && lake env lean Simaple/Audit/C01.lean")
 
